@@ -41,6 +41,13 @@ pub fn set_next_bulk(b: bool) {
         *core::ptr::addr_of_mut!(NEXT_BULK) = b;
     }
 }
+/// read-only latch of the next buffer created through `BufFile::new/with_capacity/with_per_mille`
+pub static mut NEXT_RO: bool = false;
+pub fn set_next_ro(b: bool) {
+    unsafe {
+        *core::ptr::addr_of_mut!(NEXT_RO) = b;
+    }
+}
 /// global event counter so that harnesses can order events of different files
 pub static mut CLOCK: u32 = 0;
 fn tick() -> u32 {
@@ -118,6 +125,7 @@ impl BufFile {
         let mut b = Self::from_image(d, e);
         b._file = Some(file);
         b.bulk = unsafe { *core::ptr::addr_of!(NEXT_BULK) };
+        b.ro = unsafe { *core::ptr::addr_of!(NEXT_RO) };
         b
     }
     pub fn new(_name: &str, file: File) -> Result<Self> {
